@@ -30,7 +30,7 @@ const char *probe_names[] = {"call_executed_by_more_than_one_thread", "negative_
                              "last_block_partial", "call_from_inside_task", "count_far_above_thread_count", "scheduled_closures_ran", "loop_with_a_throwing_body_planned", nullptr};
 const char *no_faults[] = {nullptr};
 const char *tyname[] = {"unsigned char", "short", "int", "unsigned", "long", "long long", "unsigned long long", "size_t"};
-const char *apiname[] = {"parallel_for", "parallel_foreach(container)", "parallel_foreach(iterators)", "parallel_in_blocks_of"};
+const char *apiname[] = {"parallel_for", "parallel_foreach(container)", "parallel_foreach(iterators)", "parallel_in_blocks_of", "parallel_foreach(std::deque)"};
 
 int blockers_started, blockers_released;
 void reset()
@@ -84,14 +84,14 @@ void do_plan(int tier)
   long long total = 0;
   for (int i = 0; i < plan.ncalls; i++) {
     C01Call &c = plan.calls[i];
-    unsigned a = sim_plan(6);
-    c.api = a < 3 ? C01_FOR : (a == 3 ? C01_FOREACH_CONT : (a == 4 ? C01_FOREACH_IT : C01_BLOCKS));
+    unsigned a = sim_plan(7);
+    c.api = a < 3 ? C01_FOR : (a == 3 ? C01_FOREACH_CONT : (a == 4 ? C01_FOREACH_IT : (a == 5 ? C01_BLOCKS : C01_FOREACH_DEQUE)));
     c.itype = (int)sim_plan(8);
     if (c.api == C01_BLOCKS && c.itype < 2)
       c.itype = 2 + (int)sim_plan(6);
     static const int blocks[] = {1, 3, 16, 64};
     c.block = blocks[sim_plan(4)];
-    bool foreach_api = c.api == C01_FOREACH_CONT || c.api == C01_FOREACH_IT;
+    bool foreach_api = c.api == C01_FOREACH_CONT || c.api == C01_FOREACH_IT || c.api == C01_FOREACH_DEQUE;
     c.count = pick_count(foreach_api ? 7 : c.itype, nth, tier, !foreach_api, false);
     if (foreach_api && c.count == 0)
       c.count = 1;
